@@ -9,7 +9,7 @@ def make_cases(rng, tier, n):
     cases = []
     stats = {}
     for i in range(n):
-        c = gen.basic_project(rng, "hist-%d" % i, tier, stats=stats)
+        c = gen.basic_project(rng, "hist-%d" % i, tier, stats=stats, wide=(i % 20 == 3))
         gen.gen_history(rng, c, rng.randrange(5, 12 if tier == "quick" else 40))
         if c["hist_info"]["edits_between"]:
             c["two_commits"] = True
